@@ -64,7 +64,10 @@ class Layer(object):
     if value is None:
       init = initializers.get(initializer) if initializer is not None else initializers.Zeros()
       value = init(shape, dtype=dt)
-    value = tfc.convert_to_tensor(value) if not isinstance(value, tfc.Tensor) else value
+    if not isinstance(value, tfc.Tensor):
+      value = tfc.convert_to_tensor(np.asarray(value, dtype=float).tolist() if not isinstance(value, (list, tuple)) and not hasattr(value, 'is_const') else value, dtype=dt)
+    elif value.dtype != dt:
+      value = tfc.cast(value, dt)
     if list(value.shape) != shape:
       raise ValueError('add_weight %r: initializer produced shape %s, expected %s' %
                        (name, list(value.shape), shape))
